@@ -270,6 +270,8 @@ pub fn run(ctx: &Ctx) -> Report {
             rep.require("responses_with_multi_packet_message", 1);
         }
     }
+    // ---- backends that go on after a refused writer call (props/recover.rs): ids of the reply
+    rep.merge(super::recover::group(ctx, "C05", super::recover::Clause::SeqIds, None, 1000, 10_000));
     rep.merge(super::mega::run(ctx, "C05", 1500, 60000));
     // ---- (f) TLS upgrade: the reply to the handshake response sent INSIDE TLS continues that packet's id
     if !ctx.miri {
